@@ -274,7 +274,8 @@ def coq_eval(name, body, timeout=900):
     os.makedirs(d, exist_ok=True)
     p = os.path.join(d, name + ".v")
     open(p, "w").write(body)
-    rc, so, se, dt = run(["timeout", str(timeout), "coqc", "-Q", COQ, "GV", p], cwd=d, timeout=timeout + 30)
+    # large string literals need a deep parser stack
+    rc, so, se, dt = run(["bash", "-c", "ulimit -s unlimited 2>/dev/null; exec timeout %d coqc -Q %s GV %s" % (timeout, COQ, p)], cwd=d, timeout=timeout + 30)
     return rc == 0, so, se, dt
 
 
